@@ -36,22 +36,34 @@ def cases(tier):
 def strategy(hazards):
     sched = st.one_of(st.just(("natural",)), st.just(("every_kth", 3)), st.just(("every_alloc",)),
                       st.tuples(st.integers(0, 1 << 20), st.integers(20, 300)).map(lambda t: ("seeded", t[0], t[1])))
-    return st.tuples(gen.cache_program(gen.Cfg(max_depth=3, p_confuse=0, hazards=hazards)), sched, st.integers(0, 1))
+    progs_ = st.one_of(gen.cache_program(gen.Cfg(max_depth=3, p_confuse=0, hazards=hazards)),
+                       gen.cache_program(gen.Cfg(max_depth=3, p_confuse=0, hazards=hazards)),
+                       gen.cross_module_cache_scenario())
+    return st.tuples(progs_, sched, st.integers(0, 1))
 
 
 def run_case(case, ctx):
     prog, sched, vsel = case
+    files = None
+    texts = None
+    if isinstance(prog, dict):
+        # two modules: every inline cache slot number exists in both, with a different meaning
+        files = prog["files"]
+        texts = {p_: printer.to_source(s_)[0] for p_, s_ in files.items()}
+        prog = prog["main"]
     src, lines = printer.to_source(prog)
-    res, why = run_model(prog, lines)
+    res, why = run_model(prog, lines, files=files)
     if res is None:
         return Outcome(discarded=why)
     variant = VARIANTS[vsel % 2]
     w = ctx.worker(variant)
     sched = tuple(sched)
-    on = w.run(src, schedule=sched, alloc_mode=1)
-    off = w.run(src, schedule=sched, alloc_mode=1, caches_disabled=True)
+    on = w.run(src, files=texts, schedule=sched, alloc_mode=1)
+    off = w.run(src, files=texts, schedule=sched, alloc_mode=1, caches_disabled=True)
+    if texts:
+        src = src + "".join("\n--- %s\n%s" % (p_, t) for p_, t in sorted(texts.items()))
     labels = sorted(l for l in res.labels if "site" in l or l in ("inherit", "shadow_call")) + \
-        ["sched:" + sched[0], "build:" + variant]
+        ["sched:" + sched[0], "build:" + variant] + (["two-modules"] if texts else [])
     nontrivial = "polymorphic_site" in res.labels
     fail = same_behaviour(PROPERTY, off, on, src, "caches forced to miss", "caches enabled", "cache")
     if fail is None:
